@@ -38,6 +38,14 @@ var (
 	EnvFailure string
 )
 
+// ShortWrite, returned by Before for a write, makes the shim perform the FIRST N bytes of the write for real and
+// then return the error (a device that fills up in the middle of a write).
+type ShortWrite struct{ N int }
+
+func (s *ShortWrite) Error() string {
+	return "injected: short write (the device stored only part of the data)"
+}
+
 func noteEnv(op, path string, err error) {
 	if err == nil || EnvFailure != "" {
 		return
